@@ -82,8 +82,10 @@ class MergeExtractor(BaseExtractor):
                                         if column_reference_optional := e.get_child(
                                             "column_reference"
                                         ):
-                                            if cqt := extract_column_qualifier(
-                                                column_reference_optional
+                                            if j < len(insert_columns) and (
+                                                cqt := extract_column_qualifier(
+                                                    column_reference_optional
+                                                )
                                             ):
                                                 src_col = Column(cqt.column)
                                                 src_col.parent = direct_source
